@@ -246,6 +246,44 @@ class Gen:
             return d
         return b
 
+    def t_attached_reset(self):
+        """reset values ATTACHED to signal objects (Bit::resetValue, Enum::resetValue) and used by reg(signal, settings);
+        enum signals; a struct of (UInt, Bit, Enum) registered member-wise.  Copies of such signals must carry the
+        attached value along (C11: pass-through copies), post-processing must keep the registers' reset values (C01)."""
+        if self.reg_bits + 3 > self.max_reg:
+            return self.expr(2)
+        u = self.get_u(2)
+        e = self.fresh("e")
+        self.emit(f"toenum {e} {u}" + (f" rst {self.r.randrange(4)}" if self.r.random() < 0.8 else ""))
+        kind = self.r.random()
+        if kind < 0.45:
+            self.reg_bits += 2
+            r = self.fresh("e"); self.emit(f"regs {r} {e}")
+            o = self.fresh("t"); self.emit(f"ofenum {o} {r}")
+            self.vars[o] = ('u', 2)
+            return o
+        bsrc = self.get_b()
+        b = self.fresh("b")
+        self.emit(f"bitrst {b} {bsrc} {self.r.choice('01')}")
+        self.vars[b] = ('b', 1)
+        if kind < 0.7:
+            self.reg_bits += 1
+            rb = self.fresh("r"); self.emit(f"regs {rb} {b}")
+            self.vars[rb] = ('b', 1)
+            return rb
+        # struct: UInt member without reset, Bit and Enum members with their attached reset values
+        self.reg_bits += 5
+        a = self.get_u(2)
+        sa, sb, se = self.fresh("s"), self.fresh("s"), self.fresh("e")
+        self.emit(f"regst {sa} {sb} {se} {a} {b} {e}")
+        self.vars[sa] = ('u', 2); self.vars[sb] = ('b', 1)
+        o = self.fresh("t"); self.emit(f"ofenum {o} {se}")
+        self.vars[o] = ('u', 2)
+        x = self.fresh("t")
+        self.emit(f"mux {x} {sb} {sa} {o}")
+        self.vars[x] = ('u', 2)
+        return x
+
     def t_cmpconst(self):
         """comparisons against constants (removeIrrelevantComparisons, ensureNoLiteralComparison): 1-bit
         operands compared with '0' / '1' / X, both operand orders, == and !=, used as condition and as data"""
@@ -608,7 +646,8 @@ def write_programs(path, designs):
 # ---------------------------------------------------------------------------
 # decorations (property C11): behaviour-neutral rewrites of a design program
 # ---------------------------------------------------------------------------
-DEF_OPS = {"lit", "not", "bin", "slice", "bit", "zext", "oext", "sext", "mux", "var", "reg", "xovr", "memread", "memreadf"}
+DEF_OPS = {"lit", "not", "bin", "slice", "bit", "zext", "oext", "sext", "mux", "var", "reg", "xovr", "memread", "memreadf",
+           "toenum", "ofenum", "bitrst", "regs", "regst"}
 MUT_OPS = {"set", "setslice", "setbit", "close", "loopvar", "membind"}
 
 
@@ -654,12 +693,14 @@ def decorate(lines, seed):
         elif t[0] in ("if", "elif"):
             t = [t[0], ren.get(t[1], t[1])]
         out.append(" ".join(t))
-        if t[0] in DEF_OPS and t[1] not in mutable and t[0] != "reg" and rng.random() < 0.2:
+        if t[0] in DEF_OPS and t[1] not in mutable and t[0] not in ("reg", "regs", "regst") and rng.random() < (0.5 if t[0] in ("toenum", "bitrst") else 0.2):
             cp = f"{t[1]}_cp"
             out.append(f"var {cp} {t[1]}")
             ren[t[1]] = cp
             applied.append("copy")
-        elif t[0] in DEF_OPS and t[1] not in mutable and t[0] != "memread" and rng.random() < 0.15:
+        elif t[0] in DEF_OPS and t[1] not in mutable and t[0] not in ("memread", "toenum", "bitrst") and rng.random() < 0.15:
+            # (not for signals that carry an attached reset value: attribute() returns a NEW signal built from a read port,
+            #  like any operator result, and such results do not inherit the attached reset value - only copies do)
             # the value routed THROUGH an attribute node (x = attribute(x, ...)): every later use sees the attributed copy
             ap = f"{t[1]}_at"
             out.append(f"attrp {ap} {t[1]}")
